@@ -53,7 +53,7 @@ func (ex *Exec) verifyClosure(st *State, clo *Closure, ord int, ls *LoopSpec) {
 	}
 	ex.heapHavocAll(st)
 	for g := range ex.cs.Ghost {
-		ex.ghostHavoc(st, g)
+		ex.ghostHavocIfKnown(st, g)
 	}
 	sig := under(ex.typeOf(lit)).(*types.Signature)
 	var args []Val
@@ -266,17 +266,23 @@ func (ex *Exec) havocCallbackEffects(st *State, fc *FuncContract, pc *preparedCa
 			}
 		default:
 			// a function value: effect-free only if this function's own contract models it as pure
-			if i < len(pc.call.Args) {
-				if id, ok := unparen(pc.call.Args[i]).(*ast.Ident); ok && ex.fc != nil {
-					own := false
-					for _, n := range ex.fc.PureCallbacks {
-						if n == id.Name {
-							own = true
-						}
+			if i < len(pc.call.Args) && ex.fc != nil {
+				name := ""
+				switch a := unparen(pc.call.Args[i]).(type) {
+				case *ast.Ident:
+					name = a.Name
+				case *ast.SelectorExpr:
+					// a function-typed FIELD the caller's contract lists as `callback pure`
+					name = a.Sel.Name
+				}
+				own := false
+				for _, n := range ex.fc.PureCallbacks {
+					if n == name && name != "" {
+						own = true
 					}
-					if own {
-						continue
-					}
+				}
+				if own {
+					continue
 				}
 			}
 			ex.heapHavocAll(st)
